@@ -307,6 +307,10 @@ func (c cmdCase) op(dir string) map[string]any {
 		if c.DNSDest == "expire" {
 			args = append(args, "-dns-ttl", "100ms")
 		}
+		if c.DNSDest == "chain" {
+			// a second tuple whose source is the first one's destination: the mapping is applied once, not followed along
+			args = append(args, "-connect-to", c.dnsName(dir)+":{{PORT}}:127.0.0.1:1")
+		}
 		if c.DNSDest == "off" {
 			args = append(args, "-dns-ttl", "-1")
 		}
@@ -423,7 +427,7 @@ func TestDrv_E2E(t *testing.T) {
 		c.Lookup = localhostResolves && r.Intn(6) == 0
 		c.DNSDest = "none"
 		if n%8 == 5 {
-			c.DNSDest, c.ConnectTo, c.KeepAlive, c.Hosts = pick("forever", "off"), true, false, 1
+			c.DNSDest, c.ConnectTo, c.KeepAlive, c.Hosts = pick("forever", "off", "chain"), true, false, 1
 		}
 		if !c.valid() {
 			continue
